@@ -6,6 +6,7 @@ package main
 import (
 	"fmt"
 	"math"
+	"sort"
 	"sync/atomic"
 
 	"github.com/unixpickle/model3d/model2d"
@@ -18,12 +19,12 @@ import (
 )
 
 type mcCase struct {
-	Kind  string  `json:"kind"` // mc3 | ms2 | bitmap | gen
-	Algo  string  `json:"algo"`
-	N     []int   `json:"n"`
-	Bits  uint64  `json:"bits"`
-	Place int     `json:"place"`
-	Gen   string  `json:"gen,omitempty"`
+	Kind  string    `json:"kind"` // mc3 | ms2 | bitmap | gen
+	Algo  string    `json:"algo"`
+	N     []int     `json:"n"`
+	Bits  uint64    `json:"bits"`
+	Place int       `json:"place"`
+	Gen   string    `json:"gen,omitempty"`
 	Args  []float64 `json:"args,omitempty"`
 }
 
@@ -465,10 +466,71 @@ func enumGenerators(r *ev.Run) {
 			&model3d.LinearConstraint{Normal: model3d.XYZ(1, 1, 1), Max: 10}),
 		"cut-corner": append(model3d.NewConvexPolytopeRect(model3d.XYZ(0, 0, 0), model3d.XYZ(1, 1, 1)),
 			&model3d.LinearConstraint{Normal: model3d.XYZ(1, 1, 1), Max: 2.5}),
+		// vertices where four or more planes meet
+		"cut-through-three-corners": append(model3d.NewConvexPolytopeRect(model3d.XYZ(0, 0, 0), model3d.XYZ(1, 1, 1)),
+			&model3d.LinearConstraint{Normal: model3d.XYZ(1, 1, 1), Max: 2}),
+		"plane-touching-one-corner": append(model3d.NewConvexPolytopeRect(model3d.XYZ(0, 0, 0), model3d.XYZ(1, 1, 1)),
+			&model3d.LinearConstraint{Normal: model3d.XYZ(1, 1, 1), Max: 3}),
 	}
-	for _, name := range []string{"box", "box2", "tetra", "tetra-unnormalized", "prism", "box-redundant", "cut-corner"} {
-		p := polys[name]
-		checkClosed(r, "ConvexPolytope.Mesh/"+name, mcCase{Kind: "gen", Gen: "ConvexPolytope.Mesh/" + name}, p.Mesh, 2)
+	planes := func(rot *model3d.Matrix3, off model3d.Coord3D, ns ...model3d.Coord3D) model3d.ConvexPolytope {
+		var p model3d.ConvexPolytope
+		for _, n := range ns {
+			rn := n
+			if rot != nil {
+				rn = rot.MulColumn(n)
+			}
+			// plane n.x <= 1 of the unrotated shape, moved by off
+			p = append(p, &model3d.LinearConstraint{Normal: rn, Max: 1 + rn.Dot(off)})
+		}
+		return p
+	}
+	var octa, cubo, icosa []model3d.Coord3D
+	for _, sx := range []float64{-1, 1} {
+		for _, sy := range []float64{-1, 1} {
+			for _, sz := range []float64{-1, 1} {
+				octa = append(octa, model3d.XYZ(sx, sy, sz))
+				cubo = append(cubo, model3d.XYZ(sx, sy, sz).Scale(0.5))
+			}
+		}
+	}
+	cubo = append(cubo, model3d.X(1), model3d.X(-1), model3d.Y(1), model3d.Y(-1), model3d.Z(1), model3d.Z(-1))
+	phi := (1 + math.Sqrt(5)) / 2
+	for _, s1 := range []float64{-1, 1} {
+		for _, s2 := range []float64{-1, 1} {
+			// the 12 vertex directions of an icosahedron are the face normals of a dodecahedron; the 20 face normals of an
+			// icosahedron: (+-1,+-1,+-1) and cyclic (0, +-1/phi, +-phi)
+			icosa = append(icosa, model3d.XYZ(0, s1/phi, s2*phi), model3d.XYZ(s1/phi, s2*phi, 0), model3d.XYZ(s2*phi, 0, s1/phi))
+		}
+	}
+	icosa = append(icosa, octa...)
+	rots := []*model3d.Matrix3{nil, model3d.NewMatrix3Rotation(model3d.XYZ(1, 2, -1).Normalize(), 0.7), model3d.NewMatrix3Rotation(model3d.Z(1), math.Pi/4), model3d.NewMatrix3Rotation(model3d.XYZ(0.3, -0.2, 0.9).Normalize(), 2.1)}
+	for ri, rot := range rots {
+		for oi, off := range []model3d.Coord3D{{}, {X: 0.3, Y: -1.2, Z: 2}} {
+			polys[fmt.Sprintf("octahedron/rot%d/off%d", ri, oi)] = planes(rot, off, octa...)
+			polys[fmt.Sprintf("cuboctahedron/rot%d/off%d", ri, oi)] = planes(rot, off, cubo...)
+			polys[fmt.Sprintf("icosahedron/rot%d/off%d", ri, oi)] = planes(rot, off, icosa...)
+			for k := 4; k <= 7; k++ {
+				// k-gon pyramid: k slanted planes through the apex (0,0,1) and the base z >= -1
+				var ns []model3d.Coord3D
+				for i := 0; i < k; i++ {
+					th := 2*math.Pi*float64(i)/float64(k) + 0.1
+					ns = append(ns, model3d.XYZ(math.Cos(th), math.Sin(th), 1))
+				}
+				ns = append(ns, model3d.Z(-1))
+				polys[fmt.Sprintf("pyramid%d/rot%d/off%d", k, ri, oi)] = planes(rot, off, ns...)
+			}
+		}
+	}
+	{
+		var names []string
+		for name := range polys {
+			names = append(names, name)
+		}
+		sort.Strings(names)
+		for _, name := range names {
+			p := polys[name]
+			checkClosed(r, "ConvexPolytope.Mesh/"+name, mcCase{Kind: "gen", Gen: "ConvexPolytope.Mesh/" + name}, p.Mesh, 2)
+		}
 	}
 	// octagonal prisms with rotated side planes
 	for k := 3; k <= 9; k++ {
